@@ -88,8 +88,8 @@ theorem descriptions_agree_iff (n : Nat) (cs : List Con) (gs : List Gen) (h1 : W
     (h2 : gensWF n gs = true) : checkDD n cs gs = true ↔ sem cs = GenSem n gs :=
   checkDD_iff_genSem n cs gs h1 h2
 
-example : checkDD 1 seg.cs [⟨.point, [0], 1⟩, ⟨.point, [2], 2⟩] = true ∧
-    checkDD 1 seg.cs [⟨.point, [0], 1⟩, ⟨.cpoint, [1], 1⟩] = false := by decide +kernel
+example : checkDD 1 [geRow [1] 0, geRow [-1] 0] [⟨.point, [0], 1⟩] = true ∧
+    checkDD 1 [geRow [1] 0] [⟨.point, [0], 1⟩] = false := by decide +kernel
 
 /-- `maximize(e, …)`: the answer classifies `sup {e(x) | x ∈ P}` exactly — empty, unbounded, or
     the rational value `a/b` together with whether it is attained (`maximum` flag). -/
